@@ -458,10 +458,18 @@ package s3db
 //@   ensures untouched: imp(old(c.txStart) == nil, c.Tree.Root == old(c.Tree.Root))
 //@   ensures result == nil && c.txStart == nil && puts == old(puts) && deletes == old(deletes)
 
+// Column i of the current row: the key for the key column, the stored value
+// of the column, NULL when the column was never assigned; a deleted current
+// row is an error, never a panic.
 //@ func (*Cursor).Column
-//@   requires c != nil
+//@   requires c != nil && c.t != nil && c.currentRow != nil && c.currentKey != nil && c.currentKey.SQLiteValue != nil
+//@   requires forall k string :: imp(has(c.currentRow.ColumnValues, k), c.currentRow.ColumnValues[k] != nil && c.currentRow.ColumnValues[k].Value != nil)
 //@   modifies nothing
-//@   ensures imp(err == nil, sqlTyped(result0))
+//@   ensures typed: imp(err == nil, sqlTyped(result0))
+//@   ensures deleted: (err != nil) == c.currentRow.Deleted
+//@   ensures key: imp(err == nil && i == c.t.KeyCol && keyTyped(int(c.currentKey.Type)), tagged(c.currentKey.SQLiteValue, result0))
+//@   ensures value: imp(err == nil && i != c.t.KeyCol && has(c.currentRow.ColumnValues, c.t.ColumnNameByIndex[i]) && keyTyped(int(c.currentRow.ColumnValues[c.t.ColumnNameByIndex[i]].Value.Type)), tagged(c.currentRow.ColumnValues[c.t.ColumnNameByIndex[i]].Value, result0))
+//@   ensures unassigned-null: imp(err == nil && i != c.t.KeyCol && !has(c.currentRow.ColumnValues, c.t.ColumnNameByIndex[i]), result0 == nil)
 
 // ---------------------------------------------------------------------------
 // Statements (properties C02, C06, C07, C13, C15)
